@@ -684,6 +684,12 @@ func emitGame(c *Ctx, g *genGame) {
 	}
 	hx := hexEnc(text)
 	c.Emit("ptnparse " + hx)
+	if c.R.Chance(1, 5) {
+		// through a reader that delivers 1, 2, 3 or a few bytes per Read (short reads are legal for an io.Reader)
+		k := []int{1, 1, 2, 2, 3, 5, 17}[c.R.Intn(7)]
+		c.Emit("ptnchunk " + strconv.Itoa(k) + " " + hx)
+		c.Count("through-short-reads~" + strconv.Itoa(k))
+	}
 	if c.R.Chance(1, 4) {
 		// through a file on disk; and with CR LF line ends, also inside comments and between tokens
 		c.Emit("ptnfile " + hx)
